@@ -24,6 +24,12 @@ tie    : (a) harness/c09.cpp: compute_laplacian and compute_diffusion_matrix cal
              inputs (where its answer is exact).
          (c) translate/t_eig.py regenerates coq/gen/EigSelect.v from the tree under check on every run; the
              selection theorems (le_select_ok, dm_select_ok, Mat_EigSelect_Tie) are obligations over that table.
+         (d) wave 3: eigenvalue RANKS of the returned columns decided exactly (inertia counts of L - sigma D over the
+             integers) with a tolerance relative to the eigenvalue itself: weakly coupled clusters (second eigenvalue
+             1e-13 .. 1e-6) and nearly decoupled Markov chains (eigenvalues 1 - 1e-12 .. 1 - 1e-5) are judged, not
+             skipped; own scan of the solver front-ends for writes to `skip` / `target_dimension` (the table's ESkip /
+             ETarget must stay the strategy constant / the request); documented defaults left unset; huge magnitudes;
+             calls from inside an application's OpenMP region and four OpenMP environments.
 search : when a proof / the table / the correspondence no longer checks, or ONE of the two harnesses no longer
          builds against the tree: the generators of the other harness at the thorough budget plus selector-boundary
          requests (N = d+1, d+2) for both methods.
@@ -49,9 +55,23 @@ TRUSTED = [
     "exp() the routines call (harness/c09.cpp, namespace tapkee::tapkee_internal) and hands the same values to the model",
     "Eigen::GeneralizedSelfAdjointEigenSolver / SelfAdjointEigenSolver are oracles: contract (A V = B V Lambda, "
     "V^T B V = I) assumed in the theorems, checked a posteriori on every public-API case by the residual tests",
-    "that the kept eigenvalues are the d smallest non-zero ones (ascending order of the solver, simplicity of the zero "
-    "eigenvalue on a connected graph, Ky Fan optimality) is not proved in Coq (no order on the abstract field): "
-    "measured against an independent Eigen reference decomposition, 1e-7 relative",
+    "that the kept eigenvalues are the d smallest non-zero ones is proved at Qc from the solver's contract (ascending "
+    "order, completeness; Lap_smallest_nonzero / Lap_pencil_spectrum / Ky Fan) and MEASURED on every public-API case in "
+    "two ways: against an independent Eigen reference decomposition (1e-7 of the largest eigenvalue), and by EXACT "
+    "eigenvalue ranks: the edge-form Rayleigh quotient of every returned column must be the eigenvalue of its rank, "
+    "within 1e-2 relative to the eigenvalue ITSELF, ranks decided by inertia counts (Sylvester's law; sign changes of "
+    "the leading principal minors of L - sigma D computed by fraction-free Bareiss elimination over Python integers; "
+    "checks/c09.py negative_inertia, self-tested against a Jacobi iteration) of the pencil whose weights are the "
+    "binary64 reference weights taken as exact rationals (a relative change delta of the weights moves every "
+    "eigenvalue of a Laplacian pencil by a factor within (1+delta)/(1-delta): Courant-Fischer); the same for the "
+    "diffusion operator through the pencil (Q - K', Q), eigenvalues 1 - lambda",
+    "conditioning allowances of the weakly coupled regime (stated, measured on the unchanged tree): a non-zero pencil "
+    "eigenvalue below 2^-43 (LE) / an eigenvalue of the diffusion operator within 2^-40 of 1 (DMAP) is counted, not "
+    "judged; |y^T D 1| (normalised) may be 64 eps / lambda_2 (observed <= 1.4 eps / lambda_2); in the nearly decoupled "
+    "DiffusionMap regime the comparisons that need reference eigenvectors are replaced by tests on the embedding alone "
+    "(rank, Q-norm = |lambda|^t within 64 eps / (1 - lambda_1), t / t+1 sign test)",
+    "calls from inside an application's OpenMP parallel region and the OpenMP environments of OMP_ENVS are compared "
+    "bitwise with / judged like the plain call (deterministic dense path; Eigen does not thread products this small)",
     "setFromTriplets sums duplicates (Eigen), modelled by mat_of_triplets; compared exactly on the exact stream",
     "selector table coq/gen/EigSelect.v generated by translate/t_eig.py (regex-level translator, self-tested)",
     "method-level reference for Laplacian Eigenmaps uses the neighbour lists returned by the library's own "
@@ -74,8 +94,11 @@ ASSUMPTIONS = [
     "neighbour lists handed to compute_laplacian have ids < N and at least neighbors[0].size() entries "
     "(otherwise the model returns OOB and the real code reads outside a container)",
     "public-API cases: the symmetrised neighbourhood graph is connected, the neighbour search is deterministic "
-    "(two calls agree), degree ratio and spectral gaps above the stated conditioning thresholds (others are run for "
-    "crashes only)",
+    "(two calls agree), degree ratio <= 1e4, every non-zero pencil eigenvalue >= 2^-43 (decided exactly; weakly coupled "
+    "clusters with lambda_2 down to 1e-13 ARE judged), DiffusionMap: no eigenvalue within 2^-40 of the trivial one "
+    "(others are run for crashes / documented exceptions only)",
+    "huge-magnitude inputs whose heat weights all underflow (a sample of degree 0): a documented tapkee exception or "
+    "an embedding is accepted, an abort is not",
 ]
 
 TOL_ENTRY = 1e-11      # tolerance stream, entrywise relative
@@ -154,7 +177,15 @@ def case_line(i, c):
 HANGS = {"n": 0}     # a library that hangs is reported on the first two inputs; nothing else is run after that
 
 
-def run_impl(ctx, exe, cases, timeout=120):
+OMP_ENVS = [          # the public-API cases are spread over these OpenMP environments (index stored in the case as
+    {"OMP_NUM_THREADS": "2"},                                  # "omp_env", so that a replay uses the same one)
+    {"OMP_NUM_THREADS": "4", "OMP_THREAD_LIMIT": "2"},         # thread limit BELOW the requested team size
+    {"OMP_NUM_THREADS": "3", "OMP_MAX_ACTIVE_LEVELS": "2"},    # nested parallelism on
+    {"OMP_NUM_THREADS": "1"},
+]
+
+
+def run_impl(ctx, exe, cases, timeout=120, env=None):
     """Returns a list aligned with cases of dicts: tag -> (rows, cols, [floats]) plus 'exc', 'crash', 'ended',
     'calls' [(arg, val)], 'miss', 'conn', 'nb'.  Never raises on garbage output."""
     results = [None] * len(cases)
@@ -162,7 +193,7 @@ def run_impl(ctx, exe, cases, timeout=120):
     while start < len(cases) and guard < 60 and HANGS["n"] < 2:
         guard += 1
         inp = "\n".join(case_line(i, c) for i, c in enumerate(cases[start:], start)) + "\n"
-        r = ctx.run(exe, inp, timeout=timeout, env={"OMP_NUM_THREADS": "2"})
+        r = ctx.run(exe, inp, timeout=timeout, env=dict(env or OMP_ENVS[0]))
         cur = None
         for line in r.out.splitlines():
             if not line.startswith("@"):
@@ -190,7 +221,7 @@ def run_impl(ctx, exe, cases, timeout=120):
                     results[cur]["miss"] = True
                 elif tag in ("CONN", "KEFF", "NBDET"):
                     results[cur][tag.lower()] = int(w[1])
-                elif tag in ("EXC2", "NBEXC"):
+                elif tag in ("EXC2", "EXC3", "NBEXC"):
                     results[cur][tag.lower()] = " ".join(w[1:])
                 elif tag == "NONB":
                     results[cur]["nonb"] = True
@@ -785,6 +816,64 @@ def gen_dmap_randomized(rng, hist):
             "seed": rng.randint(1, 10 ** 6), "dist": dist, "style": "randomized_" + style}
 
 
+def gen_api_defaults(rng, hist):
+    """parameter SPECIAL VALUES: the documented defaults (num_neighbors 5, target_dimension 2, gaussian_kernel_width 1,
+    diffusion_map_timesteps 3, check_connectivity true, default neighbour search and solver) left UNSET (em = 2 of
+    the harness leaves every keyword unset whose requested value is the default) must behave as setting them: the
+    reference is built from the documented values."""
+    if rng.random() < 0.5:
+        c = gen_le(rng, {})
+        c["em"] = 2
+        if c["n"] >= 7 and rng.random() < 0.7:
+            c["k"] = 5
+        if c["n"] >= 4 and rng.random() < 0.7:
+            c["d"] = 2
+        if rng.random() < 0.6:
+            m = sorted(x for row in c["dist"] for x in row if x > 0)
+            med = m[len(m) // 2] or 1.0
+            c["dist"] = [[x / med for x in row] for row in c["dist"]]      # width 1 = squared median distance
+            c["w"] = 1.0
+        c["cc"], c["nm"] = 1, 2
+        c["style"] = "defaults_unset_" + c["style"]
+    else:
+        c = gen_dmap(rng, {})
+        c["em"] = 2
+        c["t"] = rng.choice([3, 3, 2, rng.randint(1, 10)])                 # t = 2: the t+1 run leaves it unset
+        if c["n"] >= 3 and rng.random() < 0.7:
+            c["d"] = 2
+        if rng.random() < 0.6:
+            m = sorted(x for row in c["dist"] for x in row if x > 0)
+            med = m[len(m) // 2] or 1.0
+            c["dist"] = [[x / med for x in row] for row in c["dist"]]
+            c["w"] = 1.0
+        c["style"] = "defaults_unset_" + c["style"]
+    key = c["kind"].lower() + "_defaults_left_unset"
+    hist[key] = hist.get(key, 0) + 1
+    return c
+
+
+def gen_api_huge(rng, hist):
+    """HUGE finite magnitudes: distances of order 1e150 .. 1e300 (their squares overflow) with an ordinary or a huge
+    width, and ordinary distances with a width near the smallest normal number: every heat weight is 0 or 1.  The
+    outcome must be an embedding or a documented tapkee exception (never an abort / std::terminate); where the
+    weights stay representable (huge distances AND a width of their squared order) the ordinary verdict applies."""
+    kind = rng.choice(["LE", "DMAP"])
+    c = gen_le(rng, {}) if kind == "LE" else gen_dmap(rng, {})
+    how = rng.choice(["dist_huge", "dist_huge", "dist_and_width_huge", "width_tiny"])
+    if how == "width_tiny":
+        c["w"] = rng.choice([2.0 ** -1022, 1e-300, 5e-324])
+    else:
+        s_ = rng.choice([1e150, 1e153, 1e200, 1e300])
+        mx = max(x for row in c["dist"] for x in row) or 1.0
+        c["dist"] = [[x / mx * s_ for x in row] for row in c["dist"]]
+        if how == "dist_and_width_huge" and s_ < 1e154:
+            c["w"] = min((c["w"] / (mx * mx)) * s_ * s_, 1e300)           # finite: the pencil is the ordinary one
+    c["style"] = "huge_" + how
+    key = kind.lower() + "_huge_" + how
+    hist[key] = hist.get(key, 0) + 1
+    return c
+
+
 def boundary_cases(rng, hist):
     """selector boundaries: N = d + skip (+1) for Laplacian Eigenmaps, N = d + 1 (+1) for Diffusion Map"""
     out = []
@@ -944,7 +1033,8 @@ def gen_le_weak(rng, hist, routine=False):
     heat weights 1e-6 .. 1e-14 of the intra-cluster ones: the second pencil eigenvalue is a genuine non-zero
     eigenvalue of order 1e-7 .. 1e-15 (first-order estimate cut * (1/vol_A + 1/vol_B) recorded in the histogram).
     Joint rescaling of distances and width (which leaves the pencil unchanged) by a non-power-of-two."""
-    for _ in range(60):
+    aimed = rng.random() < 0.6     # 60%: second eigenvalue aimed at 3e-13 .. 5e-10 (resolved in binary64, below 1e-9)
+    for _ in range(400):
         g = rng.choice([2, 2, 2, 3, 3, 4])
         m = rng.randint(3, {2: 10, 3: 7, 4: 5}[g])
         n = g * m
@@ -952,7 +1042,7 @@ def gen_le_weak(rng, hist, routine=False):
         if k > n - 1:
             continue
         dim = rng.choice([1, 2, 2, 3])
-        u = rng.uniform(4.0, 13.0)                       # bridging weights ~ 10^-u relative
+        u = rng.uniform(7.5, 12.0) if aimed else rng.uniform(4.0, 13.0)      # bridging weights ~ 10^-u relative
         w = 10 ** rng.uniform(-0.5, 0.5)
         gap = math.sqrt(w * u * math.log(10.0))          # nearest cross pair ~ gap apart
         pts, lab = weak_points(rng, g, m, dim, gap)
@@ -971,7 +1061,8 @@ def gen_le_weak(rng, hist, routine=False):
         if not cut > 0 or min(vol) <= 0:
             continue
         est = cut * (1.0 / vol[0] + 1.0 / (sum(vol) - vol[0]))
-        if not 1e-15 <= est <= 1e-5:
+        lo_, hi_ = (3e-13, 5e-10) if aimed else (1e-15, 1e-5)
+        if not lo_ <= est <= hi_:
             continue
         bucket = "1e%d" % math.floor(math.log10(est))
         s = rng.choice([1.0, 3.0, 0.1, 7.5e3, 1.3e-4])    # joint rescaling: same pencil
@@ -993,6 +1084,8 @@ def gen_dm_weak(rng, hist, routine=False):
     below the trivial eigenvalue 1 (genuine, not copies of it)."""
     g = rng.choice([2, 2, 3])
     m = rng.randint(2, {2: 7, 3: 5}[g])
+    if routine:                       # the exact rational evaluation of the model grows like n^4: n <= 8 there
+        m = rng.randint(2, {2: 4, 3: 2}[g])
     n = g * m
     dim = rng.choice([1, 2, 3])
     u = rng.uniform(5.0, 10.0)
@@ -1064,7 +1157,7 @@ def crash_verdict(ctx, c, res, what):
     why = "%s: the implementation %s on this input: %s" % (
         what, "hung" if "timeout" in msg else "aborted", msg[:500])
     sig = None
-    if c["kind"] == "LE" and c["n"] == c["d"] + 1 and c.get("em", 0) == 0:
+    if c["kind"] == "LE" and c["n"] == c["d"] + 1 and c.get("em", 0) != 1:
         sig = SIG_F7
         why = ("LaplacianEigenmaps with N = target_dimension + 1: eigenvalues().segment(skip, skip+d) leaves the "
                "spectrum (F7): " + str(res.get("crash"))[:300])
@@ -1317,11 +1410,18 @@ def reference_vs_spec(ctx, mexe, todo, st):
     """the reference (L, D) that the Laplacian Eigenmaps verdicts are measured against must itself be the Coq
     specification matL / degD (Lap_Spec.v) of the FULL returned neighbour lists: the extracted model/spec is run
     on those lists (exact rationals over the doubles exp(-(d*d)/w)) and compared with the harness's reference."""
-    lines = []
+    lines, kept = [], []
     for c, r, nb in todo:
         n = c["n"]
-        H = [math.exp(-(c["dist"][a][b] * c["dist"][a][b]) / c["w"]) for a in range(n) for b in range(n)]
-        lines.append(lap_model_line(dict(c, nbrs=nb), H))
+        try:
+            H = [math.exp(-(c["dist"][a][b] * c["dist"][a][b]) / c["w"]) for a in range(n) for b in range(n)]
+            if not finite(H) or not math.isfinite(c["w"]):
+                raise ValueError
+            lines.append(lap_model_line(dict(c, nbrs=nb), H))
+            kept.append((c, r, nb))
+        except (OverflowError, ValueError, ZeroDivisionError):
+            st.skip("le_reference_vs_spec_weights_not_representable")
+    todo = kept
     outs = run_model(ctx, mexe, lines)
     for (c, r, nb), o in zip(todo, outs):
         n = c["n"]
@@ -1341,6 +1441,32 @@ def reference_vs_spec(ctx, mexe, todo, st):
                                          "matL / degD of the returned lists by %.3g" % dev)
 
 
+def in_region_verdict(ctx, c, r, st, who):
+    """the call made from inside an application's own `#pragma omp parallel` region (@Y3) must give the embedding of
+    the plain call (@Y): bitwise on the deterministic dense path.  Returns True when a violation was recorded."""
+    if "Y" not in r or c.get("em", 0) == 1:
+        return False
+    Y = r["Y"]
+    if "exc3" in r or "Y3" not in r:
+        ctx.violation(public_case(c), "%s called from inside an application's own OpenMP parallel region (num_threads(2), "
+                                      "call made by thread 0, OpenMP environment %s) %s although the plain call "
+                                      "returned an embedding"
+                      % (who, OMP_ENVS[c.get("omp_env", 0) % len(OMP_ENVS)],
+                         ("threw: " + r["exc3"][:200]) if "exc3" in r else "returned nothing"))
+        return True
+    Y3 = r["Y3"]
+    st.count("%s_in_parallel_region_compared_with_plain_call" % who)
+    same = (Y3[0], Y3[1]) == (Y[0], Y[1]) and all(a == b or (a != a and b != b) for a, b in zip(Y[2], Y3[2]))
+    if not same:
+        dev = max([abs(a - b) for a, b in zip(Y[2], Y3[2]) if a == a and b == b] + [0.0]) if len(Y[2]) == len(Y3[2]) else -1
+        ctx.violation(public_case(c), "%s called from inside an application's own OpenMP parallel region (num_threads(2), "
+                                      "call made by thread 0, OpenMP environment %s) returns a DIFFERENT embedding than the "
+                                      "plain call on the same input (shape %dx%d vs %dx%d, largest difference %.3g)"
+                      % (who, OMP_ENVS[c.get("omp_env", 0) % len(OMP_ENVS)], Y3[0], Y3[1], Y[0], Y[1], dev))
+        return True
+    return False
+
+
 def eval_le(ctx, mexe, cases, impl, st):
     spec_todo = []
     for c, r in zip(cases, impl):
@@ -1354,7 +1480,11 @@ def eval_le(ctx, mexe, cases, impl, st):
         st.count("LE")
         valid = 3 <= k < n and 1 <= d < n and c["w"] > 0
         if "exc" in r:
-            if valid and r.get("conn") == 1:
+            if valid and r.get("conn") == 1 and r.get("reffail"):
+                # the reference pencil is not definite either: a sample whose heat weights all underflow to 0 has
+                # degree 0 (huge distances / tiny width); a documented tapkee exception is the stated outcome
+                st.skip("le_documented_exception_degree_zero_heat_underflow")
+            elif valid and r.get("conn") == 1:
                 ctx.violation(public_case(c), "LaplacianEigenmaps threw on a valid request: " + r["exc"][:300])
             else:
                 st.skip("le_exception_on_invalid_or_disconnected")
@@ -1371,6 +1501,8 @@ def eval_le(ctx, mexe, cases, impl, st):
             continue
         if r.get("nbdet") != 1:
             st.skip("le_neighbour_search_not_deterministic")
+            continue
+        if in_region_verdict(ctx, c, r, st, "LaplacianEigenmaps"):
             continue
         keff = r.get("keff", 0)
         if keff > k:
@@ -1562,6 +1694,8 @@ def eval_dmap(ctx, cases, impl, st):
         if (Y[0], Y[1]) != (n, d):
             ctx.violation(public_case(c), "DiffusionMap returned a %dx%d embedding; expected %dx%d" % (Y[0], Y[1], n, d))
             continue
+        if in_region_verdict(ctx, c, r, st, "DiffusionMap"):
+            continue
         if "MREF" not in r or "EVAL" not in r or "EVEC" not in r:
             st.skip("dmap_no_reference")
             continue
@@ -1577,7 +1711,7 @@ def eval_dmap(ctx, cases, impl, st):
         # decided numerically (recorded, counted, reported to the coordinator as a robustness observation).
         gap = ev[n - 1] - ev[n - 2]
         weak = gap < 1e-4
-        pen = diffusion_pencil(c) if c.get("em", 0) == 0 else None
+        pen = diffusion_pencil(c) if c.get("em", 0) != 1 else None
         if pen is not None:
             below = pen.count_below(RESOLVED_DM)
             if below is None or below > 1:
@@ -1797,7 +1931,12 @@ def evaluate(ctx, exes, mexe, cases, st):
             impl2 = run_impl(ctx, exes["rt"], fb)
             eval_lap(ctx, mexe, fb, impl2, st)
     if api:
-        impl = run_impl(ctx, exes["api"], api)
+        impl = [None] * len(api)
+        for e in sorted({c.get("omp_env", 0) % len(OMP_ENVS) for c in api}):
+            pos = [i for i, c in enumerate(api) if c.get("omp_env", 0) % len(OMP_ENVS) == e]
+            for i, r in zip(pos, run_impl(ctx, exes["api"], [api[i] for i in pos], env=OMP_ENVS[e])):
+                impl[i] = r
+            st.by["api_cases_under_omp_env_%d" % e] = st.by.get("api_cases_under_omp_env_%d" % e, 0) + len(pos)
         sub = [(c, r) for c, r in zip(api, impl) if c["kind"] == "LE"]
         if sub:
             eval_le(ctx, mexe, [c for c, _ in sub], [r for _, r in sub], st)
@@ -1812,6 +1951,7 @@ def make_cases(rng, hist, tier, search=False, want=("rt", "api")):
     n_lap_e, n_lap_t, n_dm_e, n_dm_t = (70, 25, 30, 30) if quick else (400, 150, 150, 200)
     n_le, n_lec, n_dmap, n_dmm, n_dmr = (28, 8, 22, 14, 6) if quick else (220, 40, 200, 60, 30)
     n_lew, n_dmw, n_rtw = (10, 8, 5) if quick else (80, 60, 40)       # weakly coupled clusters (wave 3)
+    n_dfl, n_huge = (8, 6) if quick else (60, 40)                     # defaults left unset, huge magnitudes (wave 3)
     cases = []
     if "rt" in want:
         cases += [gen_lap_exact(rng, hist) for _ in range(n_lap_e)]
@@ -1821,16 +1961,23 @@ def make_cases(rng, hist, tier, search=False, want=("rt", "api")):
         cases += [gen_dm_exact_nonuniform(rng, hist) for _ in range(6 if quick else 30)]
         cases += [gen_dm_tol(rng, hist) for _ in range(n_dm_t)]
         cases += [gen_le_weak(rng, hist, routine=True) for _ in range(n_rtw)]
-        cases += [gen_dm_weak(rng, hist, routine=True) for _ in range(n_rtw)]
+        cases += [gen_dm_weak(rng, hist, routine=True) for _ in range(3 if quick else 24)]
     if "api" in want:
         cases += boundary_cases(rng, hist)
         cases += [gen_le_weak(rng, hist) for _ in range(n_lew)]
         cases += [gen_dm_weak(rng, hist) for _ in range(n_dmw)]
+        cases += [gen_api_defaults(rng, hist) for _ in range(n_dfl)]
+        cases += [gen_api_huge(rng, hist) for _ in range(n_huge)]
         cases += [gen_le_clustered(rng, hist) for _ in range(n_lec)]
         cases += [gen_dmap_metric(rng, hist) for _ in range(n_dmm)]
         cases += [gen_dmap_randomized(rng, hist) for _ in range(n_dmr)]
         cases += [gen_le(rng, hist, big=not quick) for _ in range(n_le)]
         cases += [gen_dmap(rng, hist, big=not quick) for _ in range(n_dmap)]
+    t_ = 0
+    for c in cases:
+        if c["kind"] in ("LE", "DMAP"):
+            c["omp_env"] = t_ % len(OMP_ENVS)
+            t_ += 1
     return cases
 
 
@@ -1996,16 +2143,28 @@ def run(ctx):
              "/ clusters / line / uniform point sets and ring / torus / graph / tree / ultrametric inputs, k in [3,N), "
              "d in 1..5, t in 1..10, widths over 4 decades, selector boundaries N = d+1, d+2; clustered inputs whose "
              "requested-k graph is not strongly connected so that the search raises k; metric inputs with a negative "
-             "eigenvalue among the kept pairs; Randomized solver at N = d+1).  evaluations = cases whose "
+             "eigenvalue among the kept pairs; Randomized solver at N = d+1; WEAKLY coupled clusters: 2-4 clusters "
+             "connected at the requested k through heat weights 1e-4 .. 1e-13 relative, second pencil eigenvalue 1e-5 .. "
+             "1e-15 (60% aimed at 3e-13 .. 5e-10), jointly rescaled by non-powers-of-two, at routine level (entrywise "
+             "relative comparison) and through the public API (exact eigenvalue ranks); nearly decoupled Markov chains "
+             "with eigenvalues 1 - 1e-5 .. 1 - 1e-12; documented defaults left unset; distances / widths of order 1e150 "
+             ".. 1e300 and 1e-300; every public-API case also called from inside an OpenMP parallel region and under one "
+             "of four OpenMP environments incl. OMP_THREAD_LIMIT < OMP_NUM_THREADS and nested parallelism).  "
+             "evaluations = cases whose "
              "implementation output was compared with model/spec; non-trivial = N >= 3 and, for the methods, all "
              "conditioning guards passed (connected graph, deterministic neighbour search, degree ratio <= 1e4, "
-             "separated top eigenvalue); distinct by hash of the case.",
+             "non-zero eigenvalues resolved: >= 2^-43 resp. 2^-40 below the trivial one); distinct by hash of the case.",
         samples=samples,
         histogram={"generators": hist, "evaluated_by_stream": st.by, "not_evaluated_reasons": st.skipped,
                    "max_relative_deviation_seen": st.max_dev, "selector_table_regenerated_from_tree": table_ok},
         trusted_base=TRUSTED, assumptions=ASSUMPTIONS,
         extra={"tolerances": {"entrywise_tolerance_stream": TOL_ENTRY, "public_api_residuals": TOL_SPEC,
-                              "public_api_residuals_randomized_solver": TOL_RAND, "exact_stream": 0}})
+                              "public_api_residuals_randomized_solver": TOL_RAND, "exact_stream": 0,
+                              "eigenvalue_rank_relative_to_the_eigenvalue_itself": RANK_TOL,
+                              "nonzero_eigenvalue_resolved_above": RESOLVED,
+                              "diffusion_eigenvalue_resolved_below_one_by": RESOLVED_DM,
+                              "orthogonality_to_constants_times_lambda2": MIX},
+               "omp_environments": OMP_ENVS})
 
 
 def replay(ctx, case):
